@@ -6,7 +6,7 @@
    filters and of the set-theoretic queries. *)
 From Coq Require Import String ZArith List Bool.
 From XV Require Import Base.Label Base.LSet Base.ODict Base.Attr Base.Outcome Model.Hypergraph Model.Stats
-  Proofs.HgViews Proofs.HgInv Proofs.StatsProofs Model.DiHypergraph Proofs.DiInv Proofs.DuplicatesProofs Proofs.NeighborsS.
+  Proofs.HgViews Proofs.HgInv Proofs.StatsProofs Model.DiHypergraph Proofs.DiInv Proofs.DuplicatesProofs Proofs.NeighborsS Gen.FilterModes Proofs.FilterSource.
 Import ListNotations.
 Open Scope Z_scope.
 
@@ -115,6 +115,15 @@ Theorem C06_shared_edges : forall s n x e, Inv s ->
   (In e (sinter (mships s n) (mships s x)) <-> In n (mems s e) /\ In x (mems s e)).
 Proof. exact shared_edges_spec. Qed.
 Print Assumptions C06_shared_edges.
+
+(* THE SOURCE TIE for the filters: Gen/FilterModes.v is regenerated on every run from IDView.filterby and
+   IDView.filterby_attr (harness/translate_filter.py, fail-closed); the comparison the model applies is, for each of
+   the seven modes, the one the source spells out *)
+Theorem C06_filter_modes_are_source : forall m x v,
+  src_filterby (mode_name m) x v (mode_hi m) = Some (fcmp m x v) /\
+  src_filterby_attr (mode_name m) x v (mode_hi m) = Some (fcmp m x v).
+Proof. intros m x v. split; [apply fcmp_is_source|apply fcmp_attr_is_source]. Qed.
+Print Assumptions C06_filter_modes_are_source.
 
 Example C06_nonvacuous :
   let s := run [OAddEdgesFrom (EB1 [[LInt 1; LInt 2; LInt 3]; [LInt 1; LInt 2]; [LInt 3; LInt 4]; [LInt 1; LInt 2]]) []] hg_empty in
